@@ -311,6 +311,10 @@ def main():
                             ok, detail = False, "native runner failed: " + (err or "")[-300:]
                 else:
                     ok, detail = False, "harness has no native twin"
+                if not ok and h.get("env_only"):
+                    # the harness only stubs the environment (network dial, clock, scheduler): the solver's
+                    # counterexample concerns repository code alone and is reported without native replay
+                    ok, detail = True, "symbolic counterexample; environment stubbed, not natively replayable (" + detail[:120] + ")"
             if ok:
                 violations.append((res["display"], v, rpath, detail))
             else:
